@@ -1,6 +1,7 @@
 package props
 
 import (
+	"os"
 	"fmt"
 	"go/ast"
 	"go/token"
@@ -71,6 +72,9 @@ type mutation struct {
 type freshSummary struct {
 	rets   []retCase
 	muts   []mutation // mutations of objects owned by parameters
+	// fstores: parameter i's value is stored into a document map field (so a
+	// caller that passes a shared map plants it in a document)
+	fstores []fieldStoreOf
 	done   bool
 	inProg bool
 }
@@ -83,6 +87,35 @@ type freshAnalysis struct {
 	viol []freshViolation
 	// every mutation site examined
 	sites int
+	// taint: document map fields (tax.Combo.Ext, ...) into which some run-time
+	// code stores a map that may be a shared definition's own; every in-place
+	// write through such a field, anywhere, may then hit the shared map
+	taint    map[*types.Var]string
+	newTaint bool
+}
+
+func (a *freshAnalysis) addTaint(f *types.Var, why string) {
+	if f == nil {
+		return
+	}
+	if _, ok := a.taint[f]; !ok {
+		a.taint[f] = why
+		a.newTaint = true
+	}
+}
+
+// reset forgets the summaries (not the taints) for another round.
+func (a *freshAnalysis) reset() {
+	a.sums = map[*types.Func]*freshSummary{}
+	a.viol = nil
+	a.sites = 0
+	a.newTaint = false
+}
+
+type fieldStoreOf struct {
+	param int
+	field *types.Var
+	pos   token.Pos
 }
 
 type freshViolation struct {
@@ -93,7 +126,7 @@ type freshViolation struct {
 }
 
 func newFreshAnalysis(p *core.Program, protected func(types.Type) bool) *freshAnalysis {
-	return &freshAnalysis{p: p, protected: protected, sums: map[*types.Func]*freshSummary{}}
+	return &freshAnalysis{p: p, protected: protected, sums: map[*types.Func]*freshSummary{}, taint: map[*types.Var]string{}}
 }
 
 func paramIndex(fn *types.Func, v *types.Var) (int, bool) {
@@ -153,6 +186,19 @@ func (a *freshAnalysis) summary(fn *types.Func) *freshSummary {
 	}
 	st := &funcState{a: a, fd: fd, info: fd.Pkg.TypesInfo, vars: map[*types.Var]atomSet{}, fields: map[fieldKey]atomSet{}, ld: core.NewLocalDefs(fd.Pkg.TypesInfo, fd.Decl.Body)}
 	st.solve()
+	st.docMapStores(func(f *types.Var, atoms atomSet, pos token.Pos) {
+		if os.Getenv("GOBLCHECK_DEBUG_FRESH") != "" {
+			fmt.Fprintf(os.Stderr, "FRESH store %s %s <- %v\n", a.p.Rel(pos), f.Name(), atoms)
+		}
+		for at := range atoms {
+			switch at.kind {
+			case 2:
+				a.addTaint(f, fmt.Sprintf("%s stores a map that may be a shared definition's own into it (%s)", fd.Name(), a.p.Rel(pos)))
+			case 3:
+				s.fstores = append(s.fstores, fieldStoreOf{at.idx, f, pos})
+			}
+		}
+	})
 	// returns
 	ff := core.NewFuncFlow(fd)
 	recv := recvVar(fd)
@@ -202,6 +248,25 @@ func (a *freshAnalysis) summary(fn *types.Func) *freshSummary {
 			return true
 		}
 		cs := a.summary(callee)
+		for _, fs := range cs.fstores {
+			var actual ast.Expr
+			if fs.param == -1 {
+				actual = core.RecvExpr(call)
+			} else if fs.param < len(call.Args) {
+				actual = call.Args[fs.param]
+			}
+			if actual == nil {
+				continue
+			}
+			for at := range st.eval(actual, 0) {
+				switch at.kind {
+				case 2:
+					a.addTaint(fs.field, fmt.Sprintf("%s passes a map that may be a shared definition's own as %s of %s, which stores it there (%s)", fd.Name(), paramName(callee, fs.param), core.FuncName(callee), a.p.Rel(fs.pos)))
+				case 3:
+					s.fstores = append(s.fstores, fieldStoreOf{at.idx, fs.field, fs.pos})
+				}
+			}
+		}
 		for _, m := range cs.muts {
 			var actual ast.Expr
 			if m.param == -1 {
@@ -389,9 +454,12 @@ func (st *funcState) eval(e ast.Expr, depth int) atomSet {
 					}
 				}
 			}
-			if len(out) == 0 {
-				out[aNil] = true
+			if f, ok := sel.Obj().(*types.Var); ok {
+				if _, t := st.a.taint[f]; t {
+					out[aShared] = true
+				}
 			}
+			out[aNil] = true // a field may hold nil whatever its owner is
 			return out
 		}
 		return set(aShared) // qualified package-level identifier
@@ -408,6 +476,7 @@ func (st *funcState) eval(e ast.Expr, depth int) atomSet {
 		if len(out) == 0 {
 			out[aShared] = true
 		}
+		out[aNil] = true // an element may be nil
 		return out
 	case *ast.SliceExpr:
 		return st.eval(x.X, depth+1)
@@ -492,6 +561,52 @@ func (st *funcState) eval(e ast.Expr, depth int) atomSet {
 func (st *funcState) evalLit(cl *ast.CompositeLit) atomSet {
 	// a literal is fresh; reference-typed members that alias non-fresh data do not make the object itself shared
 	return set(aFresh)
+}
+
+// docMapStores enumerates the stores of a map into a document map field:
+// `x.F = m` and `T{F: m}` with F of a named map type of the module.
+func (st *funcState) docMapStores(report func(f *types.Var, atoms atomSet, pos token.Pos)) {
+	info := st.info
+	ast.Inspect(st.fd.Decl.Body, func(n ast.Node) bool {
+		switch s := n.(type) {
+		case *ast.AssignStmt:
+			if len(s.Lhs) != len(s.Rhs) {
+				return true
+			}
+			for i, l := range s.Lhs {
+				se, ok := ast.Unparen(l).(*ast.SelectorExpr)
+				if !ok || !isDocMap(info.TypeOf(se)) {
+					continue
+				}
+				sel := info.Selections[se]
+				if sel == nil || sel.Kind() != types.FieldVal {
+					continue
+				}
+				f, _ := sel.Obj().(*types.Var)
+				report(f, st.eval(s.Rhs[i], 0), s.Pos())
+			}
+		case *ast.CompositeLit:
+			if _, stt := core.StructOf(info.TypeOf(s)); stt == nil {
+				return true
+			}
+			for _, el := range s.Elts {
+				kv, ok := el.(*ast.KeyValueExpr)
+				if !ok {
+					continue
+				}
+				id, ok := kv.Key.(*ast.Ident)
+				if !ok {
+					continue
+				}
+				f, _ := info.Uses[id].(*types.Var)
+				if f == nil || !f.IsField() || !isDocMap(f.Type()) {
+					continue
+				}
+				report(f, st.eval(kv.Value, 0), kv.Pos())
+			}
+		}
+		return true
+	})
 }
 
 // mutations enumerates mutation sites on protected objects.
@@ -643,12 +758,24 @@ func mapOrigin(st *funcState, e ast.Expr) atomSet {
 	e = ast.Unparen(e)
 	out := atomSet{}
 	if se, ok := e.(*ast.SelectorExpr); ok {
+		tainted := false
+		if sel := st.info.Selections[se]; sel != nil {
+			if f, isVar := sel.Obj().(*types.Var); isVar {
+				_, tainted = st.a.taint[f]
+			}
+		}
+		if tainted {
+			out[aShared] = true
+		}
 		if bv := core.VarOf(st.info, se.X); bv != nil {
 			for at := range st.fields[fieldKey{bv, se.Sel.Name}] {
 				if at.kind == 2 {
 					out[at] = true
 				}
 			}
+			return out
+		}
+		if tainted {
 			return out
 		}
 	}
@@ -668,4 +795,26 @@ func structLike(t types.Type) bool {
 	}
 	_, ok := t.Underlying().(*types.Struct)
 	return ok
+}
+
+// taintOf: the reason recorded for the tainted field a violation's site writes
+// through, if that is what made it a violation.
+func (a *freshAnalysis) taintOf(v freshViolation) string {
+	var why string
+	info := v.fn.Pkg.TypesInfo
+	ast.Inspect(v.fn.Decl.Body, func(n ast.Node) bool {
+		se, ok := n.(*ast.SelectorExpr)
+		if !ok || why != "" || se.Pos() < v.pos-200 || se.Pos() > v.pos+200 {
+			return true
+		}
+		if sel := info.Selections[se]; sel != nil {
+			if f, isVar := sel.Obj().(*types.Var); isVar {
+				if w, t := a.taint[f]; t {
+					why = w
+				}
+			}
+		}
+		return true
+	})
+	return why
 }
